@@ -28,3 +28,38 @@ func TestC19OnDuplicateKeyUpdateNullIsRejected(t *testing.T) {
 		t.Errorf("row is %s, want %s", got, want)
 	}
 }
+
+// Finding C19-G3 insertIter.applyUpdates/loop/repair-from-accumulator: under INSERT IGNORE … ON
+// DUPLICATE KEY UPDATE an assignment whose value cannot be converted is "repaired" in the row that
+// was proposed for insertion, and that row then takes the place of the row being updated. Columns the
+// statement does not assign are overwritten with the proposed values, assignments made earlier in the
+// list are lost, and VALUES() can no longer be resolved by later assignments. The plain UPDATE IGNORE
+// path repairs a copy of the row being updated (checked last, as the reference). FAILS on the
+// defective code.
+func TestC19OnDupKeyUpdateIgnoreKeepsTheRowBeingUpdated(t *testing.T) {
+	e, ctx := newEngine(t)
+	mustRun(t, e, ctx, "CREATE TABLE t (pk int primary key, a int, b varchar(10), g int generated always as (a + 10) stored)")
+	reset := func() {
+		mustRun(t, e, ctx, "DELETE FROM t")
+		mustRun(t, e, ctx, "INSERT INTO t (pk,a,b) VALUES (1, 5, 'old')")
+	}
+	for _, c := range []struct{ stmt, want, why string }{
+		{"INSERT IGNORE INTO t (pk,a,b) VALUES (1, 7, 'new') ON DUPLICATE KEY UPDATE a = 'xyz'",
+			"[[1 0 old 10]]", "b is not assigned and must keep its stored value"},
+		{"INSERT IGNORE INTO t (pk,a,b) VALUES (1, 7, 'new') ON DUPLICATE KEY UPDATE b = 'kept', a = 'xyz'",
+			"[[1 0 kept 10]]", "the assignment to b precedes the failing one and must survive"},
+		{"INSERT IGNORE INTO t (pk,a,b) VALUES (1, 7, 'new') ON DUPLICATE KEY UPDATE a = 'xyz', b = concat(values(b), '!')",
+			"[[1 0 new! 10]]", "VALUES(b) must still resolve after the failing assignment"},
+		{"UPDATE IGNORE t SET b = 'kept', a = 'xyz'",
+			"[[1 0 kept 10]]", "reference: the UPDATE IGNORE path"},
+	} {
+		reset()
+		if _, err := run(t, e, ctx, c.stmt); err != nil {
+			t.Errorf("%s: %v", c.stmt, err)
+			continue
+		}
+		if got := show(mustRun(t, e, ctx, "SELECT * FROM t")); got != c.want {
+			t.Errorf("%s\n  stored row %s, want %s (%s)", c.stmt, got, c.want, c.why)
+		}
+	}
+}
